@@ -215,6 +215,18 @@ func pureProjection(v ssa.Value, depth int) bool {
 		return pureProjection(x.X, depth+1)
 	case *ssa.MakeInterface:
 		return pureProjection(x.X, depth+1)
+	case *ssa.Call:
+		// a call of a side-effect-free function of the analysed packages on pure arguments
+		callee := x.Call.StaticCallee()
+		if callee == nil || !curProgRoot(callee) || !sideEffectFree(callee, 0) {
+			return false
+		}
+		for _, a := range x.Call.Args {
+			if !pureProjection(a, depth+1) {
+				return false
+			}
+		}
+		return true
 	case *ssa.Slice:
 		ok := pureProjection(x.X, depth+1)
 		for _, y := range []ssa.Value{x.Low, x.High, x.Max} {
